@@ -10,8 +10,9 @@
     conditions: identifiers are not reserved ([_…], [New_…]); the two branches of an [if] agree on being of
     type unit; tuples / destructurings have 2 or 3 components; constructors are declared and the generated Go
     constructor names are pairwise distinct; [ext] names a source-level library function.
-    [pap_args_pure p] ([wfp true]): moreover every argument supplied to a partial application is a variable, a
-    literal, a lambda or such a partial application — fc re-evaluates these arguments at each call of the
+    [pap_args_pure p] ([wfp true]): moreover every argument supplied to a partial application is [pure]: a variable, a
+    literal, a lambda, such a partial application, or an operator / [=] / [not] / tuple / record / field access /
+    constructor / slice literal over such arguments (no call, pipe, if, match, interpolation) — fc re-evaluates these arguments at each call of the
     closure it emits (fcPartialApplyGo), so the statement is false without it (see [C01_compile_effectful_pap_refuted]). *)
 From Coq Require Import List ZArith String.
 From FoVerif Require Import Core.Common Core.Lib Core.MiniFo Core.MiniGo Core.Compile Core.GoRules Core.SimDefs
